@@ -9,8 +9,8 @@
    most recent effective (not deleted-flagged) addition with key k, [mentions o p] says that
    operation o names package p as the package of an added version or of a requirement.
    Histories are arbitrary lists of operations: additions interleaved with the four
-   lookups (MatchingVersions writes to the store: for npm it sorts the package slice in
-   place).  There is no bound on their length. *)
+   lookups (which leave the store unchanged: C14_lookups_pure).  There is no bound on
+   their length. *)
 From Coq Require Import List ZArith NArith Bool Sorting.Sorted Sorting.Permutation.
 From DepsDev Require Import Lib.Base Lib.Order Gen.ResolveTables Resolve.Attr
   Resolve.MatchReq Resolve.MatchReq_proofs Resolve.Client Resolve.Client_proofs.
@@ -128,27 +128,33 @@ Theorem C14_not_found : forall O var ops,
   (forall k, last_add ops k = None -> requirements_of (run O var ops) k = Err ENotFound) /\
   (forall p, versions_of (run O var ops) p = Err ENotFound <-> existsb (fun o => mentions o p) ops = false) /\
   (forall k, versions_of (run O var ops) (vk_pkg k) = Err ENotFound ->
-             snd (matching_versions O (run O var ops) k) = Err ENotFound).
+             matching_versions O (run O var ops) k = Err ENotFound).
 Proof.
   intros O var ops. repeat split.
   - intros k Hv H. rewrite run_version_of, H by auto. reflexivity.
   - intros k H. rewrite run_requirements_of, H. reflexivity.
   - apply versions_not_found.
   - apply versions_not_found.
-  - intros k H. rewrite matching_snd. unfold versions_of in H.
+  - intros k H. rewrite matching_spec. unfold versions_of in H.
     destruct (pkg_list (run O var ops) (vk_pkg k)); [discriminate | reflexivity].
 Qed.
 Print Assumptions C14_not_found.
 
 (* MatchingVersions is MatchRequirement over the package slice (C12 says what that is) *)
 Theorem C14_matching : forall O c k,
-  snd (matching_versions O c k) =
+  matching_versions O c k =
     match pkg_list c (vk_pkg k) with
     | None => Err ENotFound
-    | Some vs => Ok (snd (match_requirement O k vs))
+    | Some vs => Ok (match_requirement O k vs)
     end.
-Proof. exact matching_snd. Qed.
+Proof. exact matching_spec. Qed.
 Print Assumptions C14_matching.
+
+(* only AddVersion writes to the store: every lookup, MatchingVersions included (it sorts
+   a copy of the slice), leaves it as it was *)
+Theorem C14_lookups_pure : forall O var c o, (forall v d, o <> HAdd v d) -> fst (step O var c o) = c.
+Proof. exact step_lookup_state. Qed.
+Print Assumptions C14_lookups_pure.
 
 (* the store invariant behind all of the above holds after every history *)
 Theorem C14_wf : forall O var ops, wf (run O var ops).
